@@ -474,14 +474,77 @@ func zooMakers() []zooMaker {
 		}
 		return b
 	}))
-	// the same size with the term in EVERY document: its bitmap has a completely full container
-	out = append(out, zooBuilt("huge-66000-dense", true, func() []model.Doc {
-		b := gen.Large(66000, 0, 1)
-		for _, j := range []int{0, 1, 65535, 65536, 65999} {
+	// 70 000 documents with one term in EVERY document (its bitmap has a completely full container,
+	// run-encoded) and one term in every document below 65 536 and in every other one above (a full
+	// container next to an array container of 2232 entries: 4.4 KiB serialized)
+	out = append(out, zooBuilt("huge-70000-dense", true, func() []model.Doc {
+		b := gen.Large(70000, 0, 1)
+		for j := range b {
+			if j < 65536 || j%2 == 0 {
+				b[j] = append(b[j], model.Field{N: "m", Len: 1, Terms: []model.Term{{T: "mixed", Freq: 1}}})
+			}
+		}
+		for _, j := range []int{0, 1, 65535, 65536, 69999} {
 			b[j] = append(gen.Doc{gen.IDField("h", j)}, b[j]...)
 		}
 		return b
 	}))
+	// (i) every field-name length from 1 to 300 bytes, and around 4 KiB and 64 KiB, in one segment
+	{
+		fnl := func() []model.Doc {
+			var lens []int
+			for l := 1; l <= 300; l++ {
+				lens = append(lens, l)
+			}
+			lens = append(lens, 4095, 4096, 4097, 65535, 65536, 65537)
+			var b []model.Doc
+			for d := 0; d < 3; d++ {
+				doc := model.Doc{gen.IDField("n", d)}
+				for k, l := range lens {
+					if (k+d)%3 == 2 {
+						continue
+					}
+					name := []byte(fmt.Sprintf("n%05d", l))
+					for len(name) < l {
+						name = append(name, byte('a'+len(name)%26))
+					}
+					name = name[:l] // short lengths: a prefix of the number (unique up to 6 bytes is not needed below)
+					if l < 6 {
+						name = []byte("abcdef"[:l-1] + string(rune('A'+l)))
+					}
+					doc = append(doc, model.Field{N: string(name), Len: 1 + k%3, Terms: []model.Term{{T: fmt.Sprintf("t%d", k%4), Freq: 1 + k%3}}, DV: k%50 == 0, St: k%70 == 0, Val: []byte("v")})
+				}
+				b = append(b, doc)
+			}
+			return b
+		}
+		out = append(out, zooBuilt("field-name-lengths", true, fnl))
+		out = append(out, zooMerged("field-name-lengths-merged", true, 0, [][]uint32{{0}, nil}, fnl, partner))
+	}
+	// (j) a doc-value field whose ENCODED chunk data exceeds 4 MiB (incompressible terms): 1300
+	// documents with four 1000-byte terms of pseudo-random bytes each
+	{
+		dvi := func() []model.Doc {
+			x := uint32(77)
+			b := make([]model.Doc, 1300)
+			for i := range b {
+				var ts []model.Term
+				for k := 0; k < 4; k++ {
+					t := make([]byte, 1000)
+					for j := range t {
+						x = x*1664525 + 1013904223
+						t[j] = byte(x>>24) % 255 // never 0xff (the doc-value term separator)
+					}
+					copy(t, fmt.Sprintf("%04d-%d-", i, k))
+					ts = append(ts, model.Term{T: string(t), Freq: 1})
+				}
+				b[i] = model.Doc{gen.IDField("i", i), {N: "b", Len: 4, DV: true, Terms: ts}}
+			}
+			return b
+		}
+		out = append(out, zooBuilt("dv-incompressible-5mib", true, dvi))
+		out = append(out, zooMerged("dv-incompressible-5mib-merged", true, 0, [][]uint32{{1}, nil}, dvi, partner))
+	}
 	return out
 }
 
